@@ -255,8 +255,8 @@ Proof.
     destruct bw as [x4|] eqn:Ebw end.
   - intros H; inversion H; subst. eapply ext_trans; [exact H3'|].
     assert (H4 : ext a x3 x4).
-    { destruct (n_router n) as [rt|]; [|discriminate]. destruct (rt_wait rt) as [[[] tmo]|]; try discriminate.
-      dmatch_hyp Ebw; [discriminate|]. inversion Ebw; subst. apply ext_log_event; [lia|exact I]. }
+    { destruct (n_router n) as [rt|]; [|discriminate]. destruct (rt_wait rt) as [[[] tmo]|]; try discriminate; try (dmatch_hyp Ebw; [discriminate|]); inversion Ebw; subst.
+      all: (apply ext_log_event; [lia|exact I]). }
     eapply ext_trans; [exact H4|]. apply ext_with_session.
     + intros j. simpl. apply events_of_upd_run_same. reflexivity.
     + simpl. rewrite update_nth_length. lia.
